@@ -1,9 +1,22 @@
-"""C16 — no leaks, no out-of-bounds, no lasting global side effects (rule groups are added incrementally)."""
+"""C16 — no leaks, no out-of-bounds access, no lasting global side effects."""
 import re
 
 from ..facts import Broken, strip, const, walk, walk_eval, show
-from ..interp import path
-from .. import cfgq
+from ..interp import path, Interp, NONZERO, av_const
+from .. import cfgq, own
+
+# Functions / acquisitions the ownership model cannot represent, each with its reason (one named symbol per entry).
+OWN_EXEMPT = {
+    ("cif_list_deserialize", None): "DESERIALIZE macro: allocation is conditional on an lvalue macro argument being NULL and "
+                                    "released by pointer comparison with it; elements live in an array (outside the alias model)",
+    ("cif_table_deserialize", None): "as cif_list_deserialize (DESERIALIZE / DESERIALIZE_USTRING into lvalue macro arguments)",
+    ("cif_value_deserialize", None): "as cif_list_deserialize; `dest` is never NULL by contract, so the allocating arm is dead",
+    ("parse_table", "table"): "the allocating arm needs *tablep == NULL; the only caller (parse_value) always passes an existing "
+                              "value object, so that arm is unreachable",
+}
+FORBIDDEN_GLOBAL_STATE = ("fesetround", "fesetenv", "feholdexcept", "feupdateenv", "fesetexceptflag", "srand", "putenv", "setenv",
+                          "unsetenv", "chdir", "signal", "umask", "setlocale")
+SETLOCALE_ALLOWED_IN = ("cif_value_init_numb", "cif_value_autoinit_numb")
 
 
 def array_len(t):
@@ -45,7 +58,6 @@ def sizeof_bound_rule(prog, rule, only=None):
             ip = path(strip(x.get("idx")))
             if not ip:
                 continue
-            # upper-bound guards on ip that dominate this site
             guards = []
             for gb in fn.blocks.values():
                 c = cfgq.cond_of(fn, gb)
@@ -79,8 +91,266 @@ def sizeof_bound_rule(prog, rule, only=None):
     return judged
 
 
+class LocaleInterp(Interp):
+    """ts = True while LC_NUMERIC has been switched to "C" by this function and not yet restored."""
+
+    def initial_ts(self):
+        return False
+
+    def call(self, st, n, argvals):
+        if n.get("callee") == "setlocale" and len(n.get("args", [])) > 1:
+            a1 = strip(n["args"][1])
+            if const(a1) == 0:
+                return [(st, None)]                         # query
+            if a1.get("k") == "str":
+                return [(st.with_ts(True), NONZERO), (st, av_const(0))]     # change: may fail
+            return [(st.with_ts(False), None)]              # restore from a saved name
+        return [(st, None)]
+
+
+def ownership(prog):
+    a = getattr(prog, "_own", None)
+    if a is None:
+        a = prog._own = own.analyse(prog)
+    return a
+
+
+def ownership_reports(prog):
+    """-> list of dicts: one per (function, kind, acquisition site, exit) with `oom_only` flag."""
+    res = ownership(prog)
+    out = []
+    for key, it in sorted(res.items()):
+        fn = it.fn
+        groups = {}
+        for (kind, acq, node, st, detail) in it.reports:
+            acq = acq or {}
+            what = acq.get("out") or acq.get("callee") or "?"
+            var = None
+            m = re.search(r"names: ([^)]*)\)", detail)
+            names = m.group(1) if m else ""
+            k = (kind, acq.get("callee"), acq.get("out"), acq.get("l"))
+            g = groups.setdefault(k, {"kind": kind, "acq": acq, "exits": {}, "oom": [], "detail": detail, "names": names, "st": st, "node": node})
+            g["oom"].append(bool(st.ts[2]))
+            g["exits"][node.get("txt", "return") if node else "end"] = node.get("l") if node else fn.endline
+        for k, g in groups.items():
+            out.append({"fn": fn, "kind": g["kind"], "callee": g["acq"].get("callee"), "var": g["acq"].get("out"),
+                        "acq_line": g["acq"].get("l"), "exits": g["exits"], "oom_only": all(g["oom"]), "detail": g["detail"],
+                        "names": g["names"], "state": g["st"], "overflow": it.overflow})
+    return out, res
+
+
+def report_key(rp):
+    v = rp["var"] or rp["names"].split(",")[0].strip() or "?"
+    return "%s:%s:%s" % (rp["kind"], rp["callee"], v)
+
+
+def exempt(rp):
+    fn = rp["fn"].name
+    if (fn, None) in OWN_EXEMPT:
+        return OWN_EXEMPT[(fn, None)]
+    v = rp["var"] or rp["names"].split(",")[0].strip()
+    return OWN_EXEMPT.get((fn, v))
+
+
 def run(prog, chk):
     chk.level = "other"
-    chk.explanation = "under construction"
-    r2 = chk.rule("R2-bounds-idioms", "indexes into fixed-length arrays are guarded by bounds no larger than the element count", floor=1)
+    chk.explanation = ("Four rule groups over all ten units.  R1: ownership typestate (per-function dataflow with aliases, "
+                       "out-parameter allocator summaries, release/transfer tables): every heap object a function acquires is "
+                       "released or handed over exactly once on every path (paths that pass a failed allocation are judged under "
+                       "C17).  R2: bounds idioms (index guarded by a bound larger than the array; free() of a pointer-arithmetic "
+                       "expression).  R3: process-wide state (setlocale save/restore discipline; no rounding-mode or environment "
+                       "changes).  R4/R5: unbounded signed decimal accumulation; a value's kind set before the fields its clean "
+                       "function reads.  Absence of undefined behaviour in general needs value ranges on all arithmetic and is "
+                       "not decided.")
+    reports, res = ownership_reports(prog)
+    r1 = chk.rule("R1-ownership", "every allocation a function acquires (malloc family, strdup, allocating out-parameters of the "
+                  "frozen summary table) is released or transferred exactly once on every path not involving a failed allocation",
+                  floor=40)
+    bad_fns = set()
+    for rp in reports:
+        if rp["oom_only"]:
+            continue
+        fn = rp["fn"]
+        why = exempt(rp)
+        key = "%s:%s" % (fn.name, report_key(rp))
+        if why:
+            r1.info(key, "exempt: " + why)
+            continue
+        bad_fns.add(fn.key)
+        exits = ", ".join("`%s` L%s" % (t[:40], l) for t, l in sorted(rp["exits"].items(), key=lambda kv: kv[1] or 0)[:4])
+        if rp["kind"] == "leak":
+            msg = "%s acquired at L%s (%s) is neither released nor handed over on a path to %s" % (
+                rp["var"] or rp["names"] or "the allocation", rp["acq_line"], rp["callee"], exits)
+        else:
+            msg = "%s (acquired at L%s by %s): %s" % (rp["kind"], rp["acq_line"], rp["callee"], rp["detail"])
+        r1.violation(fn.file, fn.name, rp["acq_line"], report_key(rp), msg, path=["L%s" % x for x in rp["state"].trail_lines()][-25:])
+    n_fn = 0
+    for key, it in sorted(res.items()):
+        n_fn += 1
+        if it.overflow:
+            r1.unproved(key, "not analysed to a fixpoint")
+        elif key not in bad_fns:
+            n_acq = len(it.acq_nodes)
+            r1.ok(key, "%d acquisition site(s), %d exits: released/transferred on all non-OOM paths" % (n_acq, len(it.exits)), n=max(1, n_acq))
+    chk.extra_cov["ownership_functions"] = n_fn
+    chk.extra_cov["allocator_summary_table"] = len(own.ALLOC_OUT)
+
+    r2 = chk.rule("R2-bounds-idioms", "no index is guarded by a bound larger than its array; free() never receives a "
+                  "pointer-arithmetic expression; constant indexes are in range", floor=2)
     sizeof_bound_rule(prog, r2)
+    n_free = 0
+    for fn in prog.all_functions():
+        for (b, i, r, n) in fn.calls_to("free"):
+            n_free += 1
+            a = strip(n["args"][0])
+            if isinstance(a, dict) and ((a.get("k") == "un" and a.get("op") in ("pre++", "pre--", "post++", "post--"))
+                                        or (a.get("k") == "bin" and a.get("op") in ("+", "-"))):
+                r2.violation(fn.file, fn.name, n.get("l"), "free-of-pointer-arithmetic:%s" % show(a)[:30],
+                             "free(%s) releases the address computed by pointer arithmetic, not the element it points to" % show(a)[:40])
+    r2.ok("free-arguments", "%d calls to free(), none on a ++/--/+ expression" % n_free) if n_free else None
+
+    r3 = chk.rule("R3-process-wide-state", "setlocale only in the two number formatters, with the queried old locale restored on every "
+                  "exit; no call changes the floating-point environment, the environment variables, the directory or signals",
+                  floor=2)
+    for fn in prog.all_functions():
+        for (b, i, r, n) in fn.calls():
+            c = n.get("callee")
+            if c in FORBIDDEN_GLOBAL_STATE and c != "setlocale":
+                r3.violation(fn.file, fn.name, n.get("l"), "global-state-call:%s" % c, "%s() changes process-wide state" % c)
+            if c == "setlocale" and fn.name not in SETLOCALE_ALLOWED_IN:
+                r3.violation(fn.file, fn.name, n.get("l"), "setlocale-outside-formatters:%s" % fn.name, "setlocale() called in %s" % fn.name)
+    r3.ok("no-fenv-env-signal-calls", "none of %s is called anywhere" % ", ".join(x for x in FORBIDDEN_GLOBAL_STATE if x != "setlocale"))
+    for fname in SETLOCALE_ALLOWED_IN:
+        fn = prog.fn(fname)
+        calls = fn.calls_to("setlocale")
+        if not calls:
+            r3.info(fname, "no setlocale call")
+            continue
+        changing = [(b, i, n) for (b, i, r, n) in calls if const(n["args"][1]) != 0 and strip(n["args"][1]).get("k") == "str"]
+        queries = [(b, i, n) for (b, i, r, n) in calls if const(n["args"][1]) == 0]
+        restores = [(b, i, n) for (b, i, r, n) in calls if strip(n["args"][1]).get("k") != "str" and const(n["args"][1]) != 0]
+        for (b, i, n) in changing:
+            # the value used to restore must not be the return value of the changing call itself
+            saved_from_change = None
+            for (b2, i2, r2_, a) in fn.eval_sites():
+                if a.get("k") == "asg" and any(x.get("id") == n["id"] for x in walk(a.get("rhs"))):
+                    saved_from_change = path(strip(a.get("lhs")))
+                if a.get("k") == "decl":
+                    for v in a.get("vars", []):
+                        if v.get("init") is not None and any(x.get("id") == n["id"] for x in walk(v["init"])):
+                            saved_from_change = v["name"]
+            restore_args = {path(strip(rn["args"][1])) for (_, _, rn) in restores}
+            key = "%s:setlocale-save-restore" % fname
+            if saved_from_change and saved_from_change in restore_args:
+                r3.violation(fn.file, fname, n.get("l"), key,
+                             "the locale passed back to setlocale() on exit (`%s`) is the return value of the call that installed "
+                             "\"C\" - that is the NEW locale, so LC_NUMERIC is never restored" % saved_from_change)
+                continue
+            if not queries:
+                r3.violation(fn.file, fname, n.get("l"), key, "the current locale is not queried (setlocale(LC_NUMERIC, NULL)) before it is changed")
+                continue
+            if not cfgq.must_precede(fn, (b.id, i), [(qb.id, qi) for (qb, qi, qn) in queries]):
+                r3.violation(fn.file, fname, n.get("l"), key, "the locale is changed on a path that did not query the old one")
+                continue
+            # every exit after the change passes a restoring call
+            # path-sensitive: after a successful change every exit must have passed a restoring call
+            it = LocaleInterp(prog, fn).run()
+            bad = [(st, node) for st, av, node in it.exits if st.ts]
+            if it.overflow:
+                r3.unproved(key, "not analysed to a fixpoint")
+            elif bad:
+                st, node = bad[0]
+                r3.violation(fn.file, fname, node.get("l") if node else fn.endline, key + ":exit",
+                             "an exit is reachable after the locale was changed to \"C\" without restoring it",
+                             path=["L%s" % x for x in st.trail_lines()][-20:])
+            else:
+                r3.ok(key, "old locale queried, copied and restored on every exit (%d exits)" % len(it.exits))
+
+    r4 = chk.rule("R4-signed-accumulation", "no `x = x*10 + d` on a signed int inside an input-driven loop without a bound check",
+                  primary=False, floor=1)
+    n_acc = 0
+    for fn in prog.all_functions():
+        for (b, i, r, n) in fn.eval_sites("asg"):
+            if n.get("op") != "=":
+                continue
+            lp = path(strip(n.get("lhs")))
+            if not lp:
+                continue
+            muls = [x for x in walk(n.get("rhs")) if x.get("k") == "bin" and x.get("op") == "*" and const(x.get("rhs")) == 10
+                    and path(strip(x.get("lhs"))) == lp]
+            if not muls:
+                continue
+            lt = strip(n.get("lhs")).get("t", "")
+            n_acc += 1
+            key = "%s:%s = %s*10 + d" % (fn.name, lp, lp)
+            if lt.strip() not in ("int", "long", "short", "int32_t", "ssize_t"):
+                r4.ok(key, "type %s: unsigned or wide accumulation" % lt)
+                continue
+            # a bound check on lp dominating the store inside the loop?
+            bounded = False
+            for gb in fn.blocks.values():
+                c = cfgq.cond_of(fn, gb)
+                if c is not None and cfgq.cmp_test(c, lambda e: path(strip(e)) == lp) is not None and b.id in cfgq.reach(fn, [gb.id]) and gb.id in cfgq.reach(fn, [b.id]):
+                    bounded = True
+            if bounded:
+                r4.ok(key, "bounded inside the loop")
+            else:
+                r4.violation(fn.file, fn.name, n.get("l"), "unbounded-signed-accumulation:%s:%s" % (fn.name, lp),
+                             "`%s = %s*10 + digit` on a signed %s for as many digits as the input has: signed overflow "
+                             "(undefined behaviour) for long digit strings" % (lp, lp, lt))
+    if n_acc == 0:
+        raise Broken("no decimal accumulation found (expected at least the exponent parser)")
+
+    r5 = chk.rule("R5-kind-after-fields", "a value's kind is stored only after the fields its clean function reads for that kind "
+                  "have been stored (otherwise a failure ladder frees uninitialised pointers)", primary=False, floor=3)
+    KIND_FIELDS = {"CIF_NUMB_KIND": ("text", "digits", "su_digits"), "CIF_CHAR_KIND": ("text",)}
+    from ..facts import macro_name
+    n_kind = 0
+    for fn in prog.all_functions():
+        for (b, i, r, n) in fn.eval_sites("asg"):
+            lp = path(strip(n.get("lhs"))) or ""
+            if not lp.endswith("kind") or n.get("op") != "=":
+                continue
+            rr = strip(n.get("rhs"))
+            kn = (rr.get("name") if isinstance(rr, dict) and rr.get("k") == "ref" and rr.get("dk") == "enum" else macro_name(n.get("rhs"))) or ""
+            from_db = any(x.get("k") == "call" and x.get("callee") == "sqlite3_column_int" for x in walk(n.get("rhs")))
+            if kn not in KIND_FIELDS and not from_db:
+                continue
+            base = lp[:-len("kind")].rstrip(".>-")
+            if kn in KIND_FIELDS:
+                n_kind += 1
+                missing = []
+                for fld in KIND_FIELDS[kn]:
+                    stores = [(bb.id, ii) for (bb, ii, rr, a) in fn.eval_sites("asg")
+                              if re.search(r"(^|[>\.])%s$" % fld, path(strip(a.get("lhs"))) or "") and (path(strip(a.get("lhs"))) or "").startswith(base[:4])]
+                    # the target object may be fresh from a function that already initialised it; only judge when the same
+                    # function stores the field at all
+                    if stores and not (cfgq.must_precede(fn, (b.id, i), stores) or any(sb == b.id for sb, si in stores)):
+                        missing.append(fld)
+                key = "%s:%s=%s" % (fn.name, lp, kn)
+                if missing:
+                    r5.unproved(key, "kind stored before %s on some path (same block ordering not judged)" % missing)
+                else:
+                    r5.ok(key, "fields stored first or in the same block")
+            else:
+                n_kind += 1
+                # kind read from the database before the kind's fields are filled (GET_VALUE_PROPS)
+                mac = "GET_VALUE_PROPS" in (n.get("ms") or [])
+                # does a failure label reachable from here run a deep release (clean / free of a value or packet)?
+                fail_blocks = [x.id for x in fn.blocks.values() if x.label and x.label.get("k") == "label" and x.label.get("name", "").endswith("_fail")
+                               and x.id in cfgq.reach(fn, [b.id])]
+                deep = False
+                for fb in fail_blocks:
+                    rr_ = cfgq.reach(fn, [fb])
+                    for (bb, ii, r3_, c3) in fn.calls():
+                        if bb.id in rr_ and c3.get("callee") in ("cif_packet_free", "cif_value_free", "cif_value_clean"):
+                            deep = True
+                if mac and not deep:
+                    r5.info("%s:GET_VALUE_PROPS" % fn.name, "kind stored before fields, but the failure ladder only frees the shell (leak judged by R1)")
+                elif mac:
+                    r5.violation(fn.file, fn.name, n.get("l"), "kind-before-fields:%s:GET_VALUE_PROPS" % fn.name,
+                                 "GET_VALUE_PROPS stores the value's kind before filling the kind's fields; if an allocation inside "
+                                 "the macro fails the object is left with kind set and uninitialised pointers, which the failure "
+                                 "ladder's clean/free then releases")
+    if n_kind < 3:
+        raise Broken("only %d kind stores found" % n_kind)
